@@ -300,7 +300,8 @@ def run(M, rep, tier, only=None):
         ok_dep = False
         viol = None
         for ua, ub, pa, pb, want in (("V", "V", "2", "2", True), ("V", "A", "", "", False), ("V", "V", "2", "3", False),
-                                     ("m", "m", "", "2", False)):
+                                     ("m", "m", "", "2", False), ("S", "s", "", "", False), ("l", "L", "", "", False),
+                                     ("Pa", "pA", "", "", False)):
             def leaf(t, ua=ua, ub=ub, pa=pa, pb=pb):
                 if t[0] == "call" and t[1] == sp.qual:
                     return ("k", ua, pa) if t[2][0] == ("param", "units_a") else ("m", ub, pb)
